@@ -78,6 +78,8 @@ const basePrelude = `
 (define-fun nilBytes () (Slice Int) (mkSlice 0 ((as const (Array Int Int)) 0) true))
 (declare-sort BytesV 0)
 (declare-fun bytesval ((Slice Int)) BytesV)
+(declare-fun bvlen (BytesV) Int)
+(assert (forall ((a (Slice Int))) (! (= (bvlen (bytesval a)) (sl.len a)) :pattern ((bytesval a)))))
 (define-fun bytes.eq ((a (Slice Int)) (b (Slice Int))) Bool (= (bytesval a) (bytesval b)))
 (declare-fun s.len (Str) Int)
 (declare-fun s.cat (Str Str) Str)
